@@ -13,6 +13,8 @@ for d in sorted(glob.glob(os.path.join(V, "seeded", "*", ""))):
         now = "superseded"
     elif c.get("caught_by_quick_check"):
         now = "caught"
+    elif m.get("demo_note") and "check_exit=1" in c.get("run_seeded", ""):
+        now = "caught (author's demonstration defused by a later repair, see demo_note)"
     elif c:
         now = "MISSED"
     else:
@@ -37,7 +39,7 @@ out = [
 ]
 for r in rows:
     out.append("| %s | %s | %s | %s | %s | %s |" % r)
-n_caught = sum(1 for r in rows if r[4] == "caught")
+n_caught = sum(1 for r in rows if r[4].startswith("caught"))
 n_sup = sum(1 for r in rows if r[4] == "superseded")
 out += ["", "%d changes, %d caught by the quick tier of their property, %d superseded, %d other." % (len(rows), n_caught, n_sup, len(rows) - n_caught - n_sup)]
 open(os.path.join(V, "seeded", "README.md"), "w").write("\n".join(out) + "\n")
